@@ -142,6 +142,15 @@ Variant(p, k) ==
       [] k = "infobits"  -> {[m EXCEPT !.info = Flip(p.info, b)] : b \in Bits(p.info)}
       [] k = "pskbits"   -> IF p.mode \in PskModes THEN {[m EXCEPT !.psk = Flip(p.psk, b)] : b \in Bits(p.psk)} ELSE {}
       [] k = "pskidbits" -> IF p.mode \in PskModes THEN {[m EXCEPT !.pskId = Flip(p.pskId, b)] : b \in Bits(p.pskId)} ELSE {}
+      \* the last and the second-to-last byte of the swept field (Shape "sweep": at EVERY length): a value whose tail is cut
+      \* at some internal buffer size still binds nothing there
+      [] k = "lastbyte" ->
+            LET flips(v) == IF v \in {OneInfo, Leaf("pskd", 160), Leaf("pskidd", 160)} \/ BLen(v) = 0 THEN {}
+                            ELSE {Flip(v, 8 * (BLen(v) - 1))} \cup (IF BLen(v) >= 2 THEN {Flip(v, 8 * (BLen(v) - 2))} ELSE {})
+            IN {[m EXCEPT !.info = x] : x \in flips(p.info)}
+               \cup (IF p.mode \in PskModes
+                     THEN {[m EXCEPT !.psk = x] : x \in flips(p.psk)} \cup {[m EXCEPT !.pskId = x] : x \in flips(p.pskId)}
+                     ELSE {})
       [] k = "ext"   -> {[m EXCEPT !.info = Cat(p.info, Lit(<<0>>))], [m EXCEPT !.info = Cat(Lit(<<0>>), p.info)]}
                         \cup (IF p.mode \in PskModes /\ p.psk # <<>>
                              THEN {[m EXCEPT !.psk = Cat(p.psk, Lit(<<0>>))], [m EXCEPT !.pskId = Cat(p.pskId, Lit(<<0>>))],
